@@ -49,14 +49,15 @@ def witnesses_c07(tier, seed):
 
 PROPS['C07'] = dict(
     level_text='Proof (Verus, unbounded): for every image, generate_hex_from_segment returns the rendering of a record list that an '
-               'independent Intel HEX reader (spec fold) decodes to exactly the image, and it succeeds up to 4 GiB. Rendering by the '
+               'independent Intel HEX reader (spec fold) decodes to exactly the image, and it succeeds up to 4 GiB; generate_hex puts the flash '
+               'image into .code and the EEPROM image into .eeprom through that function, empty images included. Rendering by the '
                'ihex crate, CRLF conversion and file I/O are assumed and exercised only by a bounded native witness family.',
     level_note='assumes the ihex crate renders records correctly, std slice/Vec contracts, rewrite R5 (chunks/enumerate as index loop); '
                'write_*_hex I/O wrapper covered by bounded witnesses only',
     technique='Verus loop invariant + postcondition against a spec-level Intel HEX reader, on the extracted function',
     verus=['hex'],
     witnesses=witnesses_c07,
-    functions=['writer::generate_hex_from_segment (src/writer.rs) -- extracted verbatim, rules R5 R1'],
+    functions=['writer::generate_hex_from_segment (src/writer.rs) -- extracted verbatim, rules R5 R1', 'writer::generate_hex -- verbatim'],
     explanation='Verus proves, for every byte slice (no length bound), that generate_hex_from_segment returns the ihex rendering of a record '
                 'list which an independent Intel HEX reader (spec fold rd/rd_step in contracts/hex.vspec) decodes to exactly the image: '
                 'every byte once at its address, none elsewhere, one EOF record at the end, and that it succeeds for every image of at '
@@ -68,7 +69,8 @@ PROPS['C07'] = dict(
         'verifier: covered only by the bounded witness family (listed lengths, decoded by spec/ihex_sem.py)',
         'R5: `for (i, c) in s.chunks(16).enumerate()` is replaced by its std definition as an index loop',
         'slices are at most isize::MAX bytes long (Rust language guarantee) ; usize is 64 bit',
-        'generate_hex (the two-line caller) passes br.code / br.eeprom unchanged: read, not verified',
+        'write_*_hex cannot be given a postcondition here: the File they write is a local that is dropped, and no ghost file-system state can be '
+        'threaded through without adding parameters to the real functions',
     ],
     trusted=['ihex 3.0 crate', 'std Vec / slice::to_vec contracts from vstd'],
     bounded=['witness family: image lengths 0,1,15,16,17,255,256,4097,65535,65536,65537 (quick) plus every length below 600 and the '
@@ -231,23 +233,71 @@ PROPS['C04'] = dict(
     trusted=PROPS['C01']['trusted'],
     bounded=PROPS['C01']['bounded'],
 )
+def witnesses_c03(tier, seed):
+    """relative branches to LABELS across instructions of both lengths, data and the one-word lds/sts of reduced cores: the displacement
+    in the emitted word must be (position of the label's item) - (position of the branch) - 1, positions computed from the ISA sizes"""
+    import isa
+    base = witnesses_enc(only_rel=True)(tier, seed)
+    rnd = random.Random(seed or 17)
+    fill = [('nop', 1, 1), ('lds r16, 0x60', 2, 1), ('sts 0x60, r16', 2, 1), ('ldi r16, 1', 1, 1), ('.db 1, 2, 3', 2, 2), ('.dw 7', 1, 1), ('mov r16, r17', 1, 1),
+            ('jmp 0', 2, None), ('call 0', 2, None), ('.db "ab"', 1, 1), ('rjmp PC+1', 1, 1), ('.dd 1', 2, 2)]
+    jobs, exp, names = [], [], []
+
+    def enc_br(mn, d):
+        if mn == 'brne':
+            return None if not -64 <= d <= 63 else 0xf401 | ((d & 0x7f) << 3)
+        return None if not -2048 <= d <= 2047 else 0xc000 | (d & 0xfff)
+    n = 60 if tier == 'quick' else 600
+    for t in range(n):
+        avr8l = t % 3 == 1
+        dev = '.device ATtiny20\n' if avr8l else ('.device ATmega16\n' if t % 3 == 2 else '')
+        fs = [f for f in fill if (f[2] if avr8l else f[1]) is not None]
+        seq = [rnd.choice(fs) for _ in range(rnd.randint(0, 6))]
+        # fixed interesting ones first
+        if t < len(fs) * 2:
+            seq = [fs[t // 2]] * (1 + t % 2)
+        size = sum((f[2] if avr8l else f[1]) for f in seq)
+        mn = 'brne' if t % 2 == 0 else 'rjmp'
+        body = ''.join(' %s\n' % f[0] for f in seq)
+        if t % 4 < 2:
+            src = dev + ' %s target\n' % mn + body + 'target: nop\n'
+            d, pos = size, 0
+        else:
+            src = dev + 'target:\n' + body + ' %s TARGET\n' % mn
+            d, pos = -(size + 1), size
+        w = enc_br(mn, d)
+        jobs.append('build\n' + src)
+        exp.append((pos, None if w is None else isa.le_bytes([w]).hex()))
+        names.append('label:%s' % src.strip().replace('\n', ' ; '))
+    res = replay.run_jobs(jobs)
+    out = list(base)
+    for name, job, (pos, e), r in zip(names, jobs, exp, res):
+        got = r['code'][4 * pos:4 * pos + 4] if r.get('status') == 'ok' else (None if r.get('status') == 'err' else r.get('status'))
+        out.append(WitnessResult(name, job, got == e, got if got is not None else 'error: ' + r.get('err', '')[:120], e if e is not None else 'error', 'pass1/'))
+    return out
+
+
 PROPS['C03'] = dict(
     level_text='Proof (Kani/CBMC, complete): for rjmp, rcall, brbs, brbc and the 18 br* aliases, for every target k: i64 and every '
                'instruction address (u32): process() is Ok iff d = k-(addr+1) (computed in 128-bit in the oracle) lies in the field range, '
                'and then the field is d mod 2^7 / 2^12 in the right bits with the right condition bits; otherwise Err, never a wrapped '
-               'field, never a panic. That pass 2 passes the address of the item being emitted and sets pc to it is the call-site '
-               'obligation of unit PASS2 (C02).',
-    level_note='label values and the address passed to process() are C02 (unit PASS2); grammar and expression parsing assumed',
+               'field, never a panic. That a label target has the value of the position where its item lands, that pass 2 passes the '
+               'address of the item being emitted and sets pc to it are the C02 clauses of units PASS1 / PASS2 / LINK / ENCV (instruction '
+               'lengths), which count for this property too.',
+    level_note='grammar and expression parsing assumed; the composition pass 1 -> pass 2 is by matching clause pairs (unit LINK), as for C02',
     technique='Kani contract harnesses on the extracted relative-branch arms of process against the ISA oracle + Verus fold oracle of pass 2 (pc)',
-    verus=['encv', 'pass2'],
+    verus=['encv', 'pass1', 'pass2', 'link'],
+    depends_on=['C02'],      # "target = address + 1 + d" for a label target presupposes that the label's value is where its item lands
     kani=[dict(slice='enc', harnesses=_enc_harnesses(_is_rel_harness), cex=_enc_cex, also_for=['C03'])],
     cex_replay=_enc_witness_from_cex,
-    witnesses=witnesses_enc(only_rel=True),
+    witnesses=witnesses_c03,
     functions=['instruction::process (Rjmp|Rcall and Br arms)', 'BranchT::number', 'Expr::get_bit_index'],
     explanation='22 Kani harnesses (every relative mnemonic) over all (k, addr) pairs: 2^64 x 2^32, symbolically.',
     assumptions=ENC_ASSUME,
     trusted=PROPS['C01']['trusted'],
-    bounded=['binding witnesses at both range limits and one beyond, forward and backward, at three addresses'],
+    bounded=['binding witnesses at both range limits and one beyond, forward and backward, at three addresses',
+             '60 (quick) / 600 (thorough) programs with a brne / rjmp to a label across one- and two-word instructions, odd .db lines and the one-word '
+             'lds/sts of ATtiny20, forward and backward: displacement in the emitted word vs positions computed from the ISA sizes'],
 )
 
 
